@@ -147,6 +147,8 @@ func genHistory(r *rand.Rand, id string, mode string, plain bool) Case {
 					d := strings.TrimSuffix(dirOf(p), "/")
 					if k := strings.LastIndex(d, "/"); k >= 0 {
 						np = d[:k+1] + baseOf(p)
+					} else if d != "" && r.Intn(2) == 0 {
+						np = baseOf(p) // out of a top-level directory to the root, same name (git prints `{docs => }/NOTES.md`)
 					} else {
 						np = fmt.Sprintf("up%d_%s", i, baseOf(p))
 					}
